@@ -1596,9 +1596,10 @@ R.mutant("associative-fast-path-mutates-through-alias-and-helper", EL, chain(
 R.mutant("binary-negate-swaps-operators-in-place", EL, sub(_NEG, (
     "        if self.negate is not None:\n            self.operator, self.negate = self.negate, self.operator\n"
     "            return self\n        else:\n            return self.self_group()._negate()\n")), "C01-R6")
-R.mutant("comparator-impl-rebinds-operand-type", DC, sub(
-    "    if result_type is None:\n        left_type = expr.type\n",
-    "    if result_type is None:\n        expr.type = type_api.to_instance(expr.type)\n        left_type = expr.type\n"), "C01-R6")
+R.mutant("comparator-impl-retypes-left-operand", DC, sub(
+    "        op, result_type = left.comparator._adapt_expression(\n            op, right.comparator\n        )\n",
+    "        op, result_type = left.comparator._adapt_expression(\n            op, right.comparator\n        )\n"
+    "        left.type = result_type\n"), "C01-R6")
 R.mutant("benign-associative-fast-path-builds-new-list", EL, sub(_CFO_HEAD, _CFO_HEAD + (
     "            if (\n                isinstance(left, ExpressionClauseList)\n                and left.operator is op\n"
     "                and getattr(right, \"operator\", None) is not op\n"
